@@ -219,6 +219,7 @@ pub fn run_case(t: &Trace) -> CaseResult {
         };
         let double = rs.chance(1, 10);
         for i in points {
+            crate::sup::note_fault(i);
             let mut tf = t.clone();
             tf.faults = vec![i];
             if double {
@@ -240,6 +241,7 @@ pub fn run_case(t: &Trace) -> CaseResult {
                 break;
             }
         }
+        crate::sup::note_fault(0);
     }
     out
 }
